@@ -14,9 +14,9 @@ PWE = "aiomysensors.exceptions.PersistenceWriteError"
 
 def run(ctx: Ctx, chk) -> None:
     chk.assume("A1", "A3", "A5")
-    eea_pload(ctx, chk)
-    handler_order(ctx, chk)
-    empty1(ctx, chk)
+    chk.run_rule(eea_pload, ctx)
+    chk.run_rule(handler_order, ctx)
+    chk.run_rule(empty1, ctx)
 
 
 def eea_pload(ctx: Ctx, chk) -> None:
